@@ -994,3 +994,64 @@ func FromCoords(t geom.T) (*G, error) {
 	}
 	return g, nil
 }
+
+// Leaf is a caller-held alias of the coordinate storage of one non-collection
+// geometry: the slice FlatCoords() returned, and the stride.
+type Leaf struct {
+	Flat   []float64
+	Stride int
+}
+
+// Leaves returns the aliases of every leaf geometry below t (t itself if it is
+// not a collection), in order. Checks take them *before* the first query, the
+// way a caller holds on to a slice: a later in-place rewrite through them is
+// then invisible to any bookkeeping done inside FlatCoords().
+func Leaves(t geom.T) []Leaf {
+	if gc, ok := t.(*geom.GeometryCollection); ok {
+		var out []Leaf
+		for _, m := range gc.Geoms() {
+			out = append(out, Leaves(m)...)
+		}
+		return out
+	}
+	return []Leaf{{Flat: t.FlatCoords(), Stride: t.Stride()}}
+}
+
+// SwapXY exchanges the first two ordinates of every coordinate, in place; false
+// if there was nothing to exchange.
+func SwapXY(ls []Leaf) bool {
+	any := false
+	for _, l := range ls {
+		if l.Stride < 2 {
+			continue
+		}
+		for i := 0; i+1 < len(l.Flat); i += l.Stride {
+			l.Flat[i], l.Flat[i+1] = l.Flat[i+1], l.Flat[i]
+			any = true
+		}
+	}
+	return any
+}
+
+// SwappedXY returns a deep copy of g in which the first two ordinates of every
+// coordinate are exchanged (what SwapXY does to the geometry itself).
+func (g *G) SwappedXY() *G {
+	c := g.Clone()
+	for _, s := range c.CoordSlots(true) {
+		if len(*s) >= 2 {
+			(*s)[0], (*s)[1] = (*s)[1], (*s)[0]
+		}
+	}
+	return c
+}
+
+// Mapped returns a deep copy of g with f applied to every ordinate.
+func (g *G) Mapped(f func(float64) float64) *G {
+	c := g.Clone()
+	for _, s := range c.CoordSlots(true) {
+		for i := range *s {
+			(*s)[i] = Of(f((*s)[i].V()))
+		}
+	}
+	return c
+}
